@@ -319,6 +319,12 @@ def updateAtRacy (h : Val) : List Step := [.read CELL, .writeIfLess CELL h]
 /-- … and with the caller holding a mutex around it. -/
 def updateAtLocked (h : Val) : List Step := [.lock M, .read CELL, .writeIfLess CELL h, .unlock M]
 
+/-- `asyncSolidCache.FetchZ`: a producer goroutine fills a buffer (plain write) and then
+signals on a channel; the consumer uses the buffer only after receiving the signal. -/
+def BUF : Loc := 0
+def handoffProg (v : Val) : Program := fun t =>
+  if t = 0 then [.write BUF v, .send CH 0] else if t = 1 then [.recv CH, .read BUF] else []
+
 /-! ## Facts about the source (filled in by the extractor, `M3d/Gen/ConcFacts.lean`) -/
 
 /-- How a worker closure (`go func`, the function passed to `essentials.ConcurrentMap` /
